@@ -265,6 +265,10 @@ def toolchain(need_boots=True, timeout=3000):
                 if o != th:
                     shutil.rmtree(os.path.join(root, o), ignore_errors=True)
         os.makedirs(bind, exist_ok=True)
+        # `dora` looks for the std/boots sources in an ancestor directory named pkgs
+        lnk = os.path.join(d, "pkgs")
+        if not os.path.islink(lnk):
+            os.symlink(os.path.join(REPO, "pkgs"), lnk)
         tgt = os.path.join(BUILD, "repo-target")
         env = {"CARGO_TARGET_DIR": tgt}
         rc, out = sh(["cargo", "build", "--offline", "-p", "dora", "-p", "dora-cannon-compiler",
